@@ -136,6 +136,7 @@ struct Run {
     filter: Option<Filter>,
     verbose: bool,
     programs: u64,
+    derived: u64,
     bank_types: u64,
     capped_types: u64,
     values: u64,
@@ -264,7 +265,11 @@ impl Run {
     fn check_entry(&mut self, meta: &Meta, ops: &Ops<'_>) {
         self.bank_types += 1;
         if !meta.definition.is_empty() {
+            // a generated program: one or more generated definitions plus the type built from them
             self.programs += 1;
+        }
+        if meta.derived {
+            self.derived += 1;
         }
         if meta.capped {
             self.capped_types += 1;
@@ -473,6 +478,7 @@ fn new_run(tier: Tier, only_oaa: bool) -> Run {
         filter: None,
         verbose: false,
         programs: 0,
+        derived: 0,
         bank_types: 0,
         capped_types: 0,
         values: 0,
@@ -490,7 +496,7 @@ fn child(args: &Args) -> i32 {
     let mut run = new_run(args.tier, true);
     typebank::visit_all(&mut run);
     let out = json!({
-        "programs": run.programs, "bank_types": run.bank_types, "capped_types": run.capped_types,
+        "programs": run.programs, "derived": run.derived, "bank_types": run.bank_types, "capped_types": run.capped_types,
         "values": run.values, "kinds": run.kinds,
     });
     // hand everything observed to the parent
@@ -551,6 +557,7 @@ pub fn main(args: &Args) -> i32 {
     let mut run = new_run(args.tier, false);
     typebank::visit_all(&mut run);
     let (mut programs, mut bank_types, mut capped_types, mut values) = (run.programs, run.bank_types, run.capped_types, run.values);
+    let mut derived = run.derived;
     let mut kinds = run.kinds.clone();
 
     // Option<T> entries: in the option-as-array build
@@ -573,6 +580,7 @@ pub fn main(args: &Args) -> i32 {
                 };
                 let j: J = serde_json::from_str(line).unwrap_or_else(|e| vcommon::machinery_failure(&format!("bad child JSON: {e}")));
                 programs += j["counts"]["programs"].as_u64().unwrap_or(0);
+                derived += j["counts"]["derived"].as_u64().unwrap_or(0);
                 bank_types += j["counts"]["bank_types"].as_u64().unwrap_or(0);
                 capped_types += j["counts"]["capped_types"].as_u64().unwrap_or(0);
                 values += j["counts"]["values"].as_u64().unwrap_or(0);
@@ -594,6 +602,8 @@ pub fn main(args: &Args) -> i32 {
 
     std::mem::take(&mut run.acc).apply(&report);
     report.set("programs", json!(programs));
+    report.set("programs_whose_outermost_type_is_a_generated_definition", json!(derived));
+    report.set("generated_definitions_in_bank", json!(typebank::DEFINITIONS));
     report.set("bank_types", json!(bank_types));
     report.set("values", json!(values));
     report.set("kinds", json!(kinds));
